@@ -27,7 +27,10 @@ func (f *follower) init() {
 func (f *follower) release() {}
 
 func (f *follower) resetTimer() {
-	if yes, _ := f.canStartElection(); yes {
+	// a follower that cannot start elections (not bootstrapped yet, nonvoter)
+	// still restarts a running timer: otherwise the timer armed earlier expires
+	// right after a contact with the leader and makes it forget that leader
+	if yes, _ := f.canStartElection(); yes || f.timer.active {
 		f.electionAborted = false
 		f.timer.reset(f.rtime.duration(f.hbTimeout))
 	}
